@@ -628,13 +628,16 @@ def compare(case, impl, model):
             return False
         # (which segments carry a closed channel decides which later writes start a background
         # flush, hence also whether a later completion event finds an unfinished write)
-        # and whether a later save that is made to fail has anything left to write; the oracle judges
-        # every snapshot against the plain model anyway)
+        # whether a later save that is made to fail has anything left to write, and how many bytes a
+        # single Read call returns; the oracle judges every snapshot and read against the plain
+        # model anyway)
         def norm(i, t):
             h = head_of(t)
             if i > failing_save and not evs[i].startswith("c,") and evs[i][evs[i].index(".") + 1:].startswith("save,") \
                     and evs[i].split(",")[2] == "1":
                 return "save"
+            if i > failing_save and not evs[i].startswith("c,") and evs[i][evs[i].index(".") + 1:].startswith("read,"):
+                return "read"    # a single Read call returns one segment's worth: depends on the shapes
             return "c" if h == "c-" else h
         return [norm(i, t) for i, t in enumerate(a) if i >= failing_save] == \
                [norm(i, t) for i, t in enumerate(b) if i >= failing_save]
@@ -930,7 +933,7 @@ def gen_free(rng, tier, maxb=None):
 
 def generate(rng, tier):
     cases = []
-    ndet, nfree = (420, 110) if tier == "quick" else (16000, 4000)
+    ndet, nfree = (420, 110) if tier == "quick" else (12000, 3000)
     for _ in range(ndet):
         cases.append(gen_det(rng, tier))
     for _ in range(nfree):
